@@ -121,6 +121,9 @@ func (fr *frame) get(key ssa.Value) value {
 		if r, ok := fr.i.globals[key]; ok {
 			return r
 		}
+		if r, ok := hostUnicodeTable(key); ok {
+			return r
+		}
 	}
 	if r, ok := fr.env[key]; ok {
 		return r
@@ -199,7 +202,7 @@ func visitInstr(fr *frame, instr ssa.Instruction) continuation {
 		fr.env[instr] = fr.get(instr.X) // (can't fail)
 
 	case *ssa.Convert:
-		fr.env[instr] = conv(instr.Type(), instr.X.Type(), fr.get(instr.X))
+		fr.env[instr] = convNarrow(fr.i.ctx, instr.Type(), instr.X.Type(), fr.get(instr.X))
 
 	case *ssa.SliceToArrayPointer:
 		fr.env[instr] = sliceToArrayPointer(instr.Type(), instr.X.Type(), fr.get(instr.X))
@@ -342,7 +345,7 @@ func visitInstr(fr *frame, instr ssa.Instruction) continuation {
 		case string:
 			fr.env[instr] = x[asInt64(idx)]
 		case *Rope:
-			fr.env[instr] = ropeIndex(x, asInt64(idx))
+			fr.env[instr] = ropeIndex(fr.i.ctx, x, asInt64(idx))
 		default:
 			panic(fmt.Sprintf("unexpected x type in Index: %T", x))
 		}
